@@ -367,7 +367,6 @@ package zap
 //@   modifies nothing
 //@   ensures result == sub(sprintln(fmtArgs), 0, len(sprintln(fmtArgs)) - 1)
 
-
 // Pre-check (C05): below DPanic a disabled level does nothing at all (no message formatting, no
 // Check, no argument sweep). From DPanic upward the check is bypassed (C06).
 //@ func (*zap.SugaredLogger).log
@@ -723,3 +722,295 @@ package zap
 //@   ensures elems_frame(type(zapcore.Core), zero(type([]zapcore.Core)))
 //@   track L = call (*zap.SugaredLogger).logln
 //@   ensures #L == 1 && L.recv[0] == s && L.arg0[0] == lvl && L.arg1[0] == args && len(L.arg2[0]) == 0
+
+// ---------------------------------------------------------------------------
+// global.go: std-log redirection (C19, C15)
+
+// An Option only configures the logger it is applied to (a private clone).
+//@ iface zap.Option.apply
+//@   params log
+//@   modifies *log, $user
+
+//@ func (*zap.Logger).clone
+//@   props C07 C19
+//@   flags nopanic
+//@   requires log != nil
+//@   modifies nothing
+//@   ensures fresh(result) && *result == old(*log)
+
+//@ func (*zap.Logger).WithOptions
+//@   props C07 C19 C15
+//@   flags nopanic
+//@   requires log != nil
+//@   requires forall k int :: 0 <= k && k < len(opts) ==> opts[k] != nil
+//@   track AP = invoke zap.Option.apply
+//@   track CL = call (*zap.Logger).clone
+//@   modifies $user
+//@   ensures fresh(result)
+//@   ensures #AP == len(opts) && (forall k int :: 0 <= k && k < len(opts) ==> AP.recv[k] == opts[k] && AP.arg0[k] == result)
+//@   ensures *log == old(*log)
+//@   loop 1 invariant 0 <= $idx && $idx <= len(opts) && #AP == $idx && *log == old(*log) && #CL == 1 && fresh(CL.ret0[0])
+//@   loop 1 invariant type_frame(type(Logger))
+//@   loop 1 invariant forall k int :: 0 <= k && k < $idx ==> AP.recv[k] == opts[k] && AP.arg0[k] == CL.ret0[0]
+
+//@ func zap.AddCallerSkip
+//@   props C15 C19
+//@   flags nopanic
+//@   modifies nothing
+//@   ensures result != nil
+
+// AddCallerSkip(k) shifts the reported caller outward by exactly k frames (C15).
+//@ func zap.AddCallerSkip$1
+//@   props C15
+//@   flags nopanic
+//@   requires log != nil
+//@   requires -1000000 <= skip && skip <= 1000000 && -1000000 <= log.callerSkip && log.callerSkip <= 1000000
+//@   modifies log.callerSkip
+//@   ensures log.callerSkip == old(log.callerSkip) + skip
+
+//@ func zap.levelToFunc
+//@   props C19 C06
+//@   flags nopanic
+//@   modifies nothing
+//@   ensures (result.1 == nil) <==> (zapcore.DebugLevel <= lvl && lvl <= zapcore.FatalLevel)
+//@   ensures result.1 == nil ==> result.0 != nil
+//@   ensures result.1 != nil ==> result.0 == nil
+
+// All-or-nothing: on error the standard logger's settings are exactly what they were.
+//@ func zap.redirectStdLogAt
+//@   props C19
+//@   flags nopanic
+//@   requires l != nil
+//@   modifies stdFlags, stdPrefix, stdOutput, $user
+//@   ensures (result.1 == nil) <==> (zapcore.DebugLevel <= level && level <= zapcore.FatalLevel)
+//@   ensures result.1 != nil ==> result.0 == nil && stdFlags == old(stdFlags) && stdPrefix == old(stdPrefix) && stdOutput == old(stdOutput)
+//@   ensures result.1 == nil ==> result.0 != nil && stdFlags == 0 && stdPrefix == "" && typeof(stdOutput) == type(*loggerWriter)
+
+//@ func zap.redirectStdLogAt$1
+//@   props C19
+//@   flags nopanic
+//@   modifies stdFlags, stdPrefix, stdOutput
+//@   ensures stdFlags == old(*flags) && stdPrefix == old(*prefix)
+
+// ---------------------------------------------------------------------------
+// writer.go, config.go: all-or-nothing opening of sinks (C19)
+//
+// The statement "on error every sink this call opened has been closed" is carried by three
+// machine-checked pieces: (1) open$1 (closeAll) closes every element of the captured closers
+// slice; (2) at the moment open calls closeAll, closers holds exactly the sinks whose open
+// succeeded, in order (countOK positions); (3) open calls closeAll exactly on the error path.
+
+// A sink factory returns a usable sink or an error.
+//@ callback type:func(*net/url.URL) (zap.Sink, error)
+//@   modifies $user
+//@   ensures result.1 == nil ==> result.0 != nil
+//@   ensures result.1 != nil ==> result.0 == nil
+
+// (a registered nil factory would panic here; RegisterSink does not reject nil - outside C19)
+//@ func (*zap.sinkRegistry).newSink
+//@   props C19 C09
+//@   requires sr != nil && sr.openFile != nil && !held(&sr.mu)
+//@   track FP = call (*zap.sinkRegistry).newFileSinkFromPath
+//@   track IA = call path/filepath.IsAbs
+//@   modifies $user, held(&sr.mu)
+//@   ensures !held(&sr.mu)
+//@   ensures #IA == 1 && IA.arg0[0] == rawURL
+//@   ensures IA.ret0[0] ==> #FP == 1 && FP.arg0[0] == rawURL && result.0 == FP.ret0[0] && result.1 == FP.ret1[0]
+//@   ensures result.1 == nil ==> result.0 != nil
+
+//@ func zap.open$1
+//@   props C19
+//@   flags nopanic
+//@   requires forall k int :: 0 <= k && k < len(*closers) ==> (*closers)[k] != nil
+//@   track CL = invoke io.Closer.Close
+//@   modifies $user
+//@   ensures #CL == len(old(*closers))
+//@   ensures forall k int :: 0 <= k && k < #CL ==> CL.recv[k] == old((*closers)[k])
+//@   loop 1 invariant 0 <= $idx && $idx <= len(*closers) && #CL == $idx && *closers == old(*closers)
+//@   loop 1 invariant forall k int :: 0 <= k && k < len(*closers) ==> (*closers)[k] == old((*closers)[k])
+//@   loop 1 invariant forall k int :: 0 <= k && k < $idx ==> CL.recv[k] == old((*closers)[k])
+
+//@ func zap.open
+//@   props C19
+//@   flags nopanic
+//@   requires _sinkRegistry != nil && _sinkRegistry.openFile != nil && !held(&_sinkRegistry.mu)
+//@   track NS = call (*zap.sinkRegistry).newSink
+//@   track CA = call zap.open$1
+//@   modifies $user, comp($held), comp(E:zapcore.WriteSyncer), comp(E:io.Closer), comp(C:zapcore.WriteSyncer), comp(C:io.Closer), comp(C:__io.Closer), comp(E:__io.Closer)
+//@   assert at call 1 of zap.open$1 : len(closers) == countOK(NS.ret1, #NS) && (forall k int :: 0 <= k && k < #NS && NS.ret1[k] == nil ==> closers[countOK(NS.ret1, k)] == NS.ret0[k])
+//@   ensures #NS == len(paths)
+//@   ensures !held(&_sinkRegistry.mu)
+//@   ensures (result.2 != nil) <==> (countOK(NS.ret1, #NS) < #NS)
+//@   ensures result.2 != nil ==> #CA == 1
+//@   ensures result.2 != nil ==> len(result.0) == 0 && result.1 == nil
+//@   ensures result.2 == nil ==> #CA == 0 && (forall k int :: 0 <= k && k < len(paths) ==> result.0[k] == NS.ret0[k])
+//@   ensures result.2 == nil ==> len(result.0) == len(paths) && result.1 != nil
+//@   loop 1 invariant 0 <= $idx && $idx <= len(paths) && #NS == $idx && #CA == 0
+//@   loop 1 invariant _sinkRegistry != nil && _sinkRegistry.openFile != nil && !held(&_sinkRegistry.mu)
+//@   loop 1 invariant forall j int :: 0 <= j && j < len(closers) ==> closers[j] != nil
+//@   loop 1 invariant openErr == nil ==> (forall k int :: 0 <= k && k <= $idx ==> countOK(NS.ret1, k) == k)
+//@   loop 1 invariant 0 <= countOK(NS.ret1, $idx) && countOK(NS.ret1, $idx) <= $idx
+//@   loop 1 invariant len(writers) == countOK(NS.ret1, $idx) && len(closers) == countOK(NS.ret1, $idx)
+//@   loop 1 invariant forall k int :: 0 <= k && k < $idx ==> 0 <= countOK(NS.ret1, k) && countOK(NS.ret1, k) <= countOK(NS.ret1, $idx) && (NS.ret1[k] == nil ==> countOK(NS.ret1, k) < countOK(NS.ret1, $idx))
+//@   loop 1 invariant forall k int :: 0 <= k && k < $idx && NS.ret1[k] == nil ==> closers[countOK(NS.ret1, k)] == NS.ret0[k] && writers[countOK(NS.ret1, k)] == NS.ret0[k] && NS.ret0[k] != nil
+//@   loop 1 invariant (openErr != nil) <==> (countOK(NS.ret1, $idx) < $idx)
+
+//@ func zap.CombineWriteSyncers
+//@   props C19 C13
+//@   flags nopanic
+//@   modifies nothing
+//@   ensures result != nil
+//@   ensures len(writers) == 1 ==> typeof(result) == type(*zapcore.lockedWriteSyncer) || result == writers[0]
+
+// A closer returned by open is a closure of zap; calling it only closes sinks.
+//@ callback result:zap.open.1
+//@   modifies $user
+//@ callback result:zap.Open.1
+//@   modifies $user
+
+//@ func zap.Open
+//@   props C19
+//@   flags nopanic
+//@   requires _sinkRegistry != nil && _sinkRegistry.openFile != nil && !held(&_sinkRegistry.mu)
+//@   track OP = call zap.open
+//@   track CW = call zap.CombineWriteSyncers
+//@   modifies $user, comp($held), comp(E:zapcore.WriteSyncer), comp(E:io.Closer), comp(C:zapcore.WriteSyncer), comp(C:io.Closer), comp(C:__io.Closer), comp(E:__io.Closer)
+//@   ensures #OP == 1 && OP.arg0[0] == paths
+//@   ensures !held(&_sinkRegistry.mu)
+//@   ensures (result.2 != nil) <==> (OP.ret2[0] != nil)
+//@   ensures result.2 != nil ==> #CW == 0
+//@   ensures result.2 != nil ==> result.0 == nil && result.1 == nil
+//@   ensures result.2 == nil ==> #CW == 1 && CW.arg0[0] == OP.ret0[0] && result.0 == CW.ret0[0] && result.1 == OP.ret1[0]
+//@   ensures result.2 == nil ==> result.0 != nil && result.1 != nil
+
+// openSinks: if the error-output sinks fail to open, the output sinks opened first are closed.
+//@ func (zap.Config).openSinks
+//@   props C19
+//@   flags nopanic
+//@   requires _sinkRegistry != nil && _sinkRegistry.openFile != nil && !held(&_sinkRegistry.mu)
+//@   track O = call zap.Open
+//@   track CO = result zap.Open.1
+//@   modifies $user, comp($held), comp(E:zapcore.WriteSyncer), comp(E:io.Closer), comp(C:zapcore.WriteSyncer), comp(C:io.Closer), comp(C:__io.Closer), comp(E:__io.Closer)
+//@   ensures #O >= 1 && O.arg0[0] == cfg.OutputPaths
+//@   ensures !held(&_sinkRegistry.mu)
+//@   ensures O.ret2[0] != nil ==> #O == 1 && result.2 != nil && #CO == 0
+//@   ensures O.ret2[0] == nil ==> #O == 2 && O.arg0[1] == cfg.ErrorOutputPaths
+//@   ensures #O == 2 && O.ret2[1] != nil ==> result.2 != nil && #CO == 1
+//@   ensures #O == 2 && O.ret2[1] == nil ==> result.2 == nil && #CO == 0 && result.0 == O.ret0[0] && result.1 == O.ret0[1]
+//@   ensures result.2 != nil ==> result.0 == nil && result.1 == nil
+
+// Build: every failure happens before the sinks are opened, except a failure of openSinks
+// itself (which has closed what it opened): once openSinks has succeeded Build succeeds.
+//@ func zap.New
+//@   props C19
+//@   flags trusted
+//@   modifies $user
+//@   ensures result != nil
+
+//@ func (zap.Config).buildEncoder
+//@   props C19
+//@   flags nopanic
+//@   requires !held(&_encoderMutex)
+//@   modifies held(&_encoderMutex), $user
+
+//@ func (zap.Config).buildOptions
+//@   props C19
+//@   flags trusted
+//@   modifies $user
+//@   ensures forall k int :: 0 <= k && k < len(result) ==> result[k] != nil
+
+//@ func (zap.Config).Build
+//@   props C19
+//@   flags trust-callees-nopanic
+//@   requires forall k int :: 0 <= k && k < len(opts) ==> opts[k] != nil
+//@   requires _sinkRegistry != nil && _sinkRegistry.openFile != nil && !held(&_sinkRegistry.mu)
+//@   requires !held(&_encoderMutex)
+//@   track BE = call (zap.Config).buildEncoder
+//@   track OS = call (zap.Config).openSinks
+//@   ensures #BE == 1
+//@   ensures BE.ret1[0] != nil ==> result.1 != nil && #OS == 0
+//@   ensures cfg.Level.l == nil ==> result.1 != nil && #OS == 0
+//@   ensures #OS <= 1
+//@   ensures #OS == 1 && OS.ret2[0] != nil ==> result.1 != nil && result.0 == nil
+//@   ensures #OS == 1 && OS.ret2[0] == nil ==> result.1 == nil
+
+// ---------------------------------------------------------------------------
+// sink.go, encoder.go: registries and file URLs (C19, C09)
+
+// Scheme syntax (RFC 3986): a letter, then letters, digits, '+', '-', '.'.
+//@ spec func schemeByte(c byte) bool = ('a' <= c && c <= 'z') || ('0' <= c && c <= '9') || c == '.' || c == '+' || c == '-'
+
+//@ func zap.normalizeScheme
+//@   props C19
+//@   flags nopanic
+//@   requires len(s) > 0
+//@   track TL = call strings.ToLower
+//@   modifies nothing
+//@   ensures result.1 == nil ==> result.0 == lower(s) && 'a' <= at(result.0, 0) && at(result.0, 0) <= 'z' && (forall k int :: 1 <= k && k < len(result.0) ==> schemeByte(at(result.0, k)))
+//@   ensures result.1 != nil ==> result.0 == ""
+//@   loop 1 invariant #TL == 1 && TL.ret0[0] == lower(s) && 1 <= i && i <= len(TL.ret0[0]) && (forall k int :: 1 <= k && k < i ==> schemeByte(at(TL.ret0[0], k)))
+
+// Registering fails without changing the registry; success adds exactly one entry.
+//@ func (*zap.sinkRegistry).RegisterSink
+//@   props C19 C09
+//@   flags nopanic
+//@   requires sr != nil && sr.factories != nil && !held(&sr.mu)
+//@   modifies held(&sr.mu), comp(MD:map_string_func__net_url.URL___zap.Sink__error_), comp(MV:map_string_func__net_url.URL___zap.Sink__error_)
+//@   ensures !held(&sr.mu)
+//@   ensures result != nil ==> mapdom(sr.factories) == old(mapdom(sr.factories)) && mapvals(sr.factories) == old(mapvals(sr.factories))
+//@   ensures scheme == "" ==> result != nil
+//@   ensures old(has(sr.factories, lower(scheme))) ==> result != nil
+//@   ensures result == nil ==> has(sr.factories, lower(scheme)) && sr.factories[lower(scheme)] == factory && !old(has(sr.factories, lower(scheme)))
+//@   ensures result == nil ==> (forall k string :: k != lower(scheme) ==> has(sr.factories, k) == old(has(sr.factories, k)) && sr.factories[k] == old(sr.factories[k]))
+
+// A file URL is opened only without user info, fragment, query and port, with an empty or
+// localhost host - and then exactly its path.
+//@ func (*zap.sinkRegistry).newFileSinkFromURL
+//@   props C19
+//@   flags nopanic
+//@   requires sr != nil && u != nil && sr.openFile != nil
+//@   track PT = call (*net/url.URL).Port
+//@   track HN = call (*net/url.URL).Hostname
+//@   track FP = call (*zap.sinkRegistry).newFileSinkFromPath
+//@   modifies $user
+//@   ensures #FP <= 1
+//@   ensures #FP == 1 ==> old(u.User) == nil && old(u.Fragment) == "" && old(u.RawQuery) == "" && #PT == 1 && PT.ret0[0] == "" && #HN == 1 && (HN.ret0[0] == "" || HN.ret0[0] == "localhost") && FP.arg0[0] == old(u.Path)
+//@   ensures #FP == 1 ==> result.0 == FP.ret0[0] && result.1 == FP.ret1[0]
+//@   ensures #FP == 0 ==> result.1 != nil && result.0 == nil
+//@   ensures result.1 == nil ==> result.0 != nil
+
+//@ callback zap.sinkRegistry.openFile
+//@   modifies $user
+
+//@ func (*zap.sinkRegistry).newFileSinkFromPath
+//@   props C19
+//@   flags nopanic
+//@   requires sr != nil && sr.openFile != nil
+//@   track OF = field zap.sinkRegistry.openFile
+//@   modifies $user
+//@   ensures path == "stdout" || path == "stderr" ==> #OF == 0 && result.1 == nil
+//@   ensures result.0 != nil
+//@   ensures path != "stdout" && path != "stderr" ==> #OF == 1 && OF.arg0[0] == path && OF.arg1[0] == os.O_WRONLY | os.O_APPEND | os.O_CREATE && OF.arg2[0] == 438 && result.1 == OF.ret1[0]
+
+//@ func zap.RegisterEncoder
+//@   props C19 C09
+//@   flags nopanic
+//@   requires _encoderNameToConstructor != nil && !held(&_encoderMutex)
+//@   modifies held(&_encoderMutex), comp(MD:map_string_func_zapcore.EncoderConfig___zapcore.Encoder__error_), comp(MV:map_string_func_zapcore.EncoderConfig___zapcore.Encoder__error_)
+//@   ensures !held(&_encoderMutex)
+//@   ensures name == "" ==> result != nil
+//@   ensures result != nil ==> mapdom(_encoderNameToConstructor) == old(mapdom(_encoderNameToConstructor)) && mapvals(_encoderNameToConstructor) == old(mapvals(_encoderNameToConstructor))
+//@   ensures old(has(_encoderNameToConstructor, name)) ==> result != nil
+//@   ensures result == nil ==> has(_encoderNameToConstructor, name) && _encoderNameToConstructor[name] == constructor
+
+//@ callback type:func(zapcore.EncoderConfig) (zapcore.Encoder, error)
+//@   modifies $user
+
+//@ func zap.newEncoder
+//@   props C19 C09
+//@   requires !held(&_encoderMutex)
+//@   modifies held(&_encoderMutex), $user
+//@   ensures !held(&_encoderMutex)
+//@   ensures encoderConfig.TimeKey != "" && encoderConfig.EncodeTime == nil ==> result.1 != nil && result.0 == nil
+//@   ensures name == "" ==> result.1 != nil
+//@   ensures !old(has(_encoderNameToConstructor, name)) ==> result.1 != nil && result.0 == nil
